@@ -89,6 +89,10 @@ func (n *xNode) render(b *strings.Builder, variant int) {
 }
 
 func renderDoc(n *xNode, variant int) []byte {
+	return []byte(strings.ReplaceAll(string(renderDocRaw(n, variant)), "~", "é"))
+}
+
+func renderDocRaw(n *xNode, variant int) []byte {
 	var b strings.Builder
 	switch variant {
 	case 1:
@@ -270,4 +274,271 @@ func decDiffClass(o decOpt) string {
 func init() {
 	register("dec", &family{replay: replayDec, serial: true,
 		rule: "one case = (abstract document rendered in one of three concrete syntaxes, option combination, entry point NewMapXml/NewMapXmlReader/NewMapXmlReaderRaw); documents are the distinct TLC states of the document builder, option combinations all members of the domain; non-trivial = the root has attributes or children"})
+}
+
+// ---------------------------------------------------------------------------
+// family "enc" (C02): document, option combinations, the Map the conventions give and the
+// EXACT bytes Map.Xml() must produce for it; the real round trip is executed as well.
+// ---------------------------------------------------------------------------
+type encGroup struct {
+	R  *tagged.TV `json:"r"`
+	X  string     `json:"x"`
+	Os []string   `json:"os"`
+}
+type encLine struct {
+	F string     `json:"f"`
+	D *xNode     `json:"d"`
+	G []encGroup `json:"g"`
+}
+
+// significantTokens: the token stream with white-space-only character data dropped and the
+// remaining character data trimmed (what "differs only in inter-element white space" means)
+func significantTokens(doc []byte, keep bool) ([]string, error) {
+	toks, err := tokensOf(doc)
+	if err != nil {
+		return nil, err
+	}
+	var out []string
+	for _, t := range toks {
+		if strings.HasPrefix(t, "T:") {
+			body := t[2:]
+			if strings.Trim(body, " \t\r\n") == "" {
+				continue
+			}
+			if !keep {
+				t = "T:" + strings.Trim(body, " \t\r\n")
+			} else {
+				// keep-spaces: blanks are content, tabs and newlines (the indentation used) are not
+				t = "T:" + strings.Trim(body, "\t\r\n")
+			}
+		}
+		out = append(out, t)
+	}
+	// <a></a> and <a/> are the same stream already (start + end token)
+	return out, nil
+}
+
+var encLineNo int
+
+func replayEnc(line []byte, a *Acc) {
+	var l encLine
+	if err := json.Unmarshal(line, &l); err != nil {
+		panic(err)
+	}
+	encLineNo++
+	defer func() { resetDecOpts(); mxj.XMLEscapeChars(false) }()
+	doc := renderDoc(l.D, encLineNo%3)
+	plain := renderDoc(l.D, 0)
+	cases, nontriv := 0, 0
+	for _, g := range l.G {
+		expMap := g.R.Norm()
+		for _, code := range g.Os {
+			o := parseOptCode(code)
+			o.apply()
+			mxj.XMLEscapeChars(!o.escdec)
+			cases++
+			if strings.ContainsAny(g.X, "&") || len(l.D.Ch) > 1 {
+				nontriv++
+			}
+			one := func(sig, detail string) {
+				a.Mis(sig, fmt.Sprintf("options %s, document %s: %s", code, plain, detail), encLine{F: "enc", D: l.D, G: []encGroup{{R: g.R, X: g.X, Os: []string{code}}}})
+			}
+			m, err := mxj.NewMapXml(doc, o.cast)
+			if err != nil || tagged.CanonGo(m) != expMap {
+				one("enc:decode-differs", fmt.Sprintf("NewMapXml(%q) = %s, %v; conventions give %s", doc, tagged.CanonGo(m), err, short(expMap)))
+				continue
+			}
+			before := tagged.CanonGo(m)
+			var b, bi []byte
+			var e1, e2 error
+			if p := guard(func() { b, e1 = m.Xml(); bi, e2 = m.XmlIndent("", "\t") }); p != "" {
+				one("enc:panic", p)
+				continue
+			}
+			if e1 != nil || e2 != nil {
+				one("enc:error", fmt.Sprintf("Xml/XmlIndent returned errors %v / %v", e1, e2))
+				continue
+			}
+			if string(b) != subst1(g.X) {
+				one("enc:bytes:"+decDiffClass(o), fmt.Sprintf("Map.Xml() = %q, specification gives %q", b, subst1(g.X)))
+				continue
+			}
+			// well formed, single root
+			ts, terr := significantTokens(b, o.keep)
+			if terr != nil {
+				one("enc:ill-formed", fmt.Sprintf("Map.Xml() = %q does not tokenize: %v", b, terr))
+				continue
+			}
+			ti, tierr := significantTokens(bi, o.keep)
+			if tierr != nil || strings.Join(ti, "\x00") != strings.Join(ts, "\x00") {
+				one("enc:indent-differs:"+decDiffClass(o), fmt.Sprintf("XmlIndent = %q is not the compact form %q up to inter-element white space (%v)", bi, b, tierr))
+				continue
+			}
+			// the round trip on the real code, both encoders
+			for i, enc := range [][]byte{b, bi} {
+				m2, err := mxj.NewMapXml(enc, o.cast)
+				if err != nil || tagged.CanonGo(m2) != expMap {
+					which := "Xml"
+					if i == 1 {
+						which = "XmlIndent"
+					}
+					one("enc:roundtrip:"+which+":"+decDiffClass(o), fmt.Sprintf("NewMapXml(%s = %q) = %s (err %v), first decode gave %s", which, enc, short(tagged.CanonGo(m2)), err, short(expMap)))
+					break
+				}
+			}
+			if tagged.CanonGo(m) != before {
+				one("enc:receiver-modified", "encoding modified the Map")
+			}
+		}
+	}
+	a.Count(cases, nontriv)
+	if len(l.G) > 3 && len(l.D.Ch) > 1 {
+		a.Sample(map[string]interface{}{"document": string(plain), "options": l.G[0].Os[0], "map": l.G[0].R.Norm(), "expected_xml": l.G[0].X})
+	}
+}
+
+// subst1 maps the non-ASCII placeholder of the specification's alphabet
+func subst1(s string) string { return strings.ReplaceAll(s, "~", "é") }
+
+func init() {
+	register("enc", &family{replay: replayEnc, serial: true,
+		rule: "one case = (document, symmetric option combination): decode, Map.Xml() compared byte for byte with the specification's rendering, XmlIndent token-equivalent, both re-decoded and compared with the first Map; non-trivial = the expected bytes contain an escaped character or the root has several children"})
+}
+
+func init() { tagged.Placeholders["~"] = "é" }
+
+// ---------------------------------------------------------------------------
+// family "encv" (C03): JSON-shaped values, exact bytes of Map.Xml / Xml(root) / AnyXml under both
+// empty-element syntaxes, indented forms token-equivalent, decode of the output = the
+// specification's Decode(Encode(v)).
+// ---------------------------------------------------------------------------
+type encvCase struct {
+	Kind string     `json:"kind"`
+	Go   bool       `json:"go"`
+	X    string     `json:"x"`
+	One  bool       `json:"one"`
+	Dec  *tagged.TV `json:"dec"`
+}
+type encvVal struct {
+	Key string `json:"key"`
+	Go  bool   `json:"go"`
+	X   string `json:"x"`
+}
+type encvLine struct {
+	F  string     `json:"f"`
+	M  *tagged.TV `json:"m"`
+	Cs []encvCase `json:"cs"`
+	Vs []encvVal  `json:"vs"`
+}
+
+func replayEncv(line []byte, a *Acc) {
+	var l encvLine
+	if err := json.Unmarshal(line, &l); err != nil {
+		panic(err)
+	}
+	defer func() { mxj.XmlDefaultEmptyElemSyntax(); mxj.XMLEscapeChars(false) }()
+	mxj.XMLEscapeChars(true)
+	mv := l.M.ToMap()
+	before := tagged.CanonGo(mv)
+	nontriv := 0
+	setGo := func(g bool) {
+		if g {
+			mxj.XmlGoEmptyElemSyntax()
+		} else {
+			mxj.XmlDefaultEmptyElemSyntax()
+		}
+	}
+	for _, c := range l.Cs {
+		setGo(c.Go)
+		one := func(sig, detail string) {
+			a.Mis(sig, fmt.Sprintf("value %s (go-empty-syntax %v): %s", short(before), c.Go, detail), encvLine{F: "encv", M: l.M, Cs: []encvCase{c}})
+		}
+		if c.One {
+			nontriv++
+		}
+		var b, bi []byte
+		var err, erri error
+		name := ""
+		if p := guard(func() {
+			switch c.Kind {
+			case "xml":
+				name = "Map.Xml()"
+				b, err = mv.Xml()
+			case "xmlroot":
+				name = `Map.Xml("r")`
+				b, err = mv.Xml("r")
+				bi, erri = mv.XmlIndent("", "  ", "r")
+			case "indentroot":
+				name = "Map.XmlIndent()"
+				bi, erri = mv.XmlIndent("", "  ")
+			case "any":
+				name = `AnyXml(m,"r")`
+				b, err = mxj.AnyXml(map[string]interface{}(mv), "r")
+				bi, erri = mxj.AnyXmlIndent(map[string]interface{}(mv), "", "  ", "r")
+			}
+		}); p != "" {
+			one("encv:panic:"+c.Kind, name+": "+p)
+			continue
+		}
+		wantErr := c.X == "!ERR"
+		if c.Kind != "indentroot" {
+			if (err != nil) != wantErr {
+				one(fmt.Sprintf("encv:%s:error-class:go=%v", c.Kind, c.Go), fmt.Sprintf("%s returned (%q, %v), specification says %q", name, b, err, c.X))
+				continue
+			}
+			if !wantErr && string(b) != c.X {
+				one(fmt.Sprintf("encv:%s:bytes:go=%v", c.Kind, c.Go), fmt.Sprintf("%s = %q, specification gives %q", name, b, c.X))
+				continue
+			}
+		}
+		if wantErr {
+			if bi != nil && erri == nil {
+				one("encv:"+c.Kind+":indent-no-error", fmt.Sprintf("indented form returned %q without error", bi))
+			}
+			continue
+		}
+		if bi != nil || c.Kind == "indentroot" {
+			if erri != nil {
+				one("encv:"+c.Kind+":indent-error", fmt.Sprintf("indented form of %s failed: %v", name, erri))
+				continue
+			}
+			ts, e1 := significantTokens([]byte(c.X), false)
+			ti, e2 := significantTokens(bi, false)
+			if e1 != nil || e2 != nil || strings.Join(ts, "\x00") != strings.Join(ti, "\x00") {
+				one(fmt.Sprintf("encv:%s:indent-differs:go=%v", c.Kind, c.Go), fmt.Sprintf("indented form %q is not %q up to inter-element white space (%v %v)", bi, c.X, e1, e2))
+				continue
+			}
+		}
+		if c.One && c.Kind != "indentroot" {
+			m2, derr := mxj.NewMapXml(b)
+			if derr != nil || tagged.CanonGo(m2) != c.Dec.Norm() {
+				one("encv:"+c.Kind+":decode", fmt.Sprintf("NewMapXml(%q) = %s (err %v), specification gives %s", b, tagged.CanonGo(m2), derr, c.Dec.Norm()))
+			}
+		}
+	}
+	for _, c := range l.Vs {
+		setGo(c.Go)
+		v := map[string]interface{}(mv)[c.Key]
+		var b []byte
+		var err error
+		if p := guard(func() { b, err = mxj.AnyXml(v, "r") }); p != "" {
+			a.Mis("encv:anyval:panic", p, encvLine{F: "encv", M: l.M, Vs: []encvVal{c}})
+			continue
+		}
+		if (err != nil) != (c.X == "!ERR") || (err == nil && string(b) != c.X) {
+			a.Mis(fmt.Sprintf("encv:anyval:bytes:go=%v", c.Go), fmt.Sprintf("AnyXml(%s, \"r\") = (%q, %v), specification gives %q", tagged.CanonGo(v), b, err, c.X), encvLine{F: "encv", M: l.M, Vs: []encvVal{c}})
+		}
+	}
+	if tagged.CanonGo(mv) != before {
+		a.Mis("encv:receiver-modified", "encoding modified the value "+before, l)
+	}
+	a.Count(len(l.Cs)+len(l.Vs), nontriv)
+	if len(l.M.KV) > 2 {
+		a.Sample(map[string]interface{}{"value": before, "expected": l.Cs[0]})
+	}
+}
+
+func init() {
+	register("encv", &family{replay: replayEncv, serial: true,
+		rule: "one case = (JSON-shaped Map, entry point Xml / Xml(root) / XmlIndent / AnyXml(+Indent) or AnyXml on a top-level value, empty-element syntax); non-trivial = the encoding has a single root"})
 }
